@@ -594,6 +594,34 @@ def derived_fields(ctx, rid):
                 new.setdefault(n.attr, [])
                 if fn not in new[n.attr]:
                     new[n.attr].append(fn)
+    # fields created reflectively: self.__dict__.setdefault('f', ..), self.__dict__['f'] = .., setattr(self, 'f', ..), vars(self)
+    for fn in funcs:
+        selfn = R.self_name(fn)
+        for n in ast.walk(fn.node):
+            fname = None
+            def is_dict_of_self(e):
+                return (isinstance(e, ast.Attribute) and e.attr == '__dict__' and is_name(e.value, selfn)) or \
+                       (isinstance(e, ast.Call) and is_name(e.func, 'vars') and len(e.args) == 1 and is_name(e.args[0], selfn))
+            if isinstance(n, ast.Call) and isinstance(n.func, ast.Attribute) and n.func.attr in ('setdefault', '__setitem__') \
+                    and is_dict_of_self(n.func.value) and n.args and isinstance(n.args[0], ast.Constant):
+                fname = n.args[0].value
+            elif isinstance(n, ast.Subscript) and isinstance(n.ctx, (ast.Store, ast.Del)) and is_dict_of_self(n.value) and isinstance(n.slice, ast.Constant):
+                fname = n.slice.value
+            elif isinstance(n, ast.Call) and is_name(n.func, 'setattr') and len(n.args) == 3 and is_name(n.args[0], selfn) \
+                    and isinstance(n.args[1], ast.Constant):
+                fname = n.args[1].value
+            if isinstance(fname, str) and fname not in KNOWN_FIELDS:
+                new.setdefault(fname, [])
+                if fn not in new[fname]:
+                    new[fname].append(fn)
+    # a field that holds a container is also written by mutating the container (self._cache.clear(), self._cache[k] = v)
+    for fn in funcs:
+        selfn = R.self_name(fn)
+        if not new:
+            break
+        for node, obj, f, kind, detail in field_writes(fn.node, set(new)):
+            if obj == selfn and fn not in new[f]:
+                new[f].append(fn)
     ctx.inst(rid, ('qubovert', ''), 'fields of model objects', True,
              "fields written on model objects: the %d frozen ones%s" % (len(KNOWN_FIELDS), (' + new %s' % sorted(new)) if new else ''),
              nontrivial=False)
